@@ -370,10 +370,30 @@ impl Oracle {
                     union.extend(ix.into_iter().filter(|i| *i < w.sc.m));
                 }
             }
+            // what the aggregator acknowledged as registered (201) for this very entity also counts:
+            // a signer signs a beacon once, an acknowledged signature must not be lost
+            let mut acknowledged: BTreeSet<u64> = BTreeSet::new();
+            for d in &w.deliveries {
+                if let MsgKind::Signature { entity, producer, .. } = &d.msg.kind
+                    && *entity == om.entity
+                    && d.status == 201
+                {
+                    let pid = w.parties[*producer].party_id.clone();
+                    if let Some(ix) = self.delivered_valid_indexes(w, &signers, &pid, &d.body, &message) {
+                        acknowledged.extend(ix.into_iter().filter(|i| *i < w.sc.m));
+                    }
+                }
+            }
             if union.len() as u64 >= w.sc.k && om.entity.signing_epoch() == e {
                 self.report(step, "no-progress-after-faults", format!(
                     "faults have stopped; the signatures stored for {} cover {} lottery indexes (k = {}), yet it is still not certified after at least {bound} further ticks (quiescence phase {phase}); state '{}', last tick error: {last_error}",
                     om.entity.label(), union.len(), w.sc.k, w.last_tick.0));
+                return;
+            }
+            if acknowledged.len() as u64 >= w.sc.k && om.entity.signing_epoch() == e {
+                self.report(step, "no-progress-after-faults", format!(
+                    "faults have stopped; the aggregator acknowledged (201) signatures for {} covering {} lottery indexes (k = {}) but only {} are still stored and the round is not certified after at least {bound} further ticks (quiescence phase {phase}); state '{}', last tick error: {last_error}",
+                    om.entity.label(), acknowledged.len(), w.sc.k, union.len(), w.last_tick.0));
                 return;
             }
             waiting_without_quorum = true;
@@ -807,6 +827,110 @@ impl Oracle {
         }
         if log.iter().any(|i| i.what.contains('~')) || log.len() > log.iter().map(|i| i.sig.signature.to_json_hex().unwrap_or_default()).collect::<BTreeSet<_>>().len() {
             self.probe("clerk_probe_with_extra_material");
+        }
+
+        // Re-encodings and corruptions a relay can apply to what was delivered (the quantifier's
+        // "index-subset restriction" and "corruption"), derived from this very delivery log:
+        //  (a) every valid signature arrives as several copies, each claiming only a part of the
+        //      indexes it won (partition or overlapping cover), in a seeded order;
+        //  (b) after the genuine log, copies of valid signatures claiming an index they did not win.
+        let reencode = |item: &Item, keep: &[u64]| -> Option<Item> {
+            let mut inner = item.sig.signature.clone().into_inner();
+            inner.set_concatenation_signature_indices(keep);
+            Some(Item {
+                sig: SingleSignature::new(item.sig.party_id.clone(), ProtocolSingleSignature::new(inner), keep.to_vec()),
+                valid: item.valid.as_ref().map(|v| v.iter().copied().filter(|i| keep.contains(i)).collect()),
+                what: format!("{}~part", item.what),
+            })
+        };
+        let mut full_union: BTreeSet<u64> = BTreeSet::new();
+        for i in &log {
+            if let Some(v) = &i.valid {
+                full_union.extend(v.iter().copied());
+            }
+        }
+        // (a)
+        let mut parts: Vec<Item> = vec![];
+        for item in log.iter().filter(|i| i.valid.as_ref().is_some_and(|v| v.len() >= 2)) {
+            let won = item.sig.signature.get_concatenation_signature_indices();
+            let n_parts = 2 + r.index(2);
+            let overlapping = r.chance(0.5);
+            for p in 0..n_parts {
+                let mut keep: Vec<u64> = won.iter().copied().enumerate().filter(|(j, _)| j % n_parts == p).map(|(_, x)| x).collect();
+                if overlapping && !won.is_empty() {
+                    keep.push(won[r.index(won.len())]);
+                    keep.sort_unstable();
+                    keep.dedup();
+                }
+                if !keep.is_empty()
+                    && let Some(it) = reencode(item, &keep)
+                {
+                    parts.push(it);
+                }
+            }
+        }
+        if !parts.is_empty() {
+            // signatures that were not split stay as they are
+            for item in log.iter().filter(|i| !i.valid.as_ref().is_some_and(|v| v.len() >= 2)) {
+                parts.push(Item { sig: item.sig.clone(), valid: item.valid.clone(), what: item.what.clone() });
+            }
+            r.shuffle(&mut parts);
+            let items: Vec<&Item> = parts.iter().collect();
+            let res = aggregate(&items);
+            self.probe("clerk_probe_split_copies");
+            let describe = items.iter().map(|i| format!("{}{:?}", i.what, i.sig.won_indexes)).collect::<Vec<_>>().join(" ");
+            match res {
+                Ok(true) => {}
+                Ok(false) => self.report(step, "aggregate-does-not-verify", format!("aggregation over index-restricted copies for {} succeeded but its result does not verify [{describe}]", entity.label())),
+                Err(e) => {
+                    if full_union.len() as u64 >= w.sc.k {
+                        self.report(step, "quorum-but-aggregation-fails", format!(
+                            "index-restricted copies of the delivered signatures for {} cover {} distinct lottery indexes (k = {}) but aggregation fails: {e} [{describe}]",
+                            entity.label(), full_union.len(), w.sc.k));
+                    }
+                }
+            }
+        }
+        // (b)
+        let genuine_ok = aggregate(&full);
+        let mut with_bogus: Vec<Item> = log.iter().map(|i| Item { sig: i.sig.clone(), valid: i.valid.clone(), what: i.what.clone() }).collect();
+        let mut added = 0;
+        for item in log.iter().filter(|i| i.valid.as_ref().is_some_and(|v| !v.is_empty())).take(3) {
+            let won = item.sig.signature.get_concatenation_signature_indices();
+            let Some(extra) = (0..w.sc.m).find(|x| !won.contains(x)) else { continue };
+            let mut keep = won.clone();
+            keep.push(extra);
+            keep.sort_unstable();
+            if let Some(mut it) = reencode(item, &keep) {
+                // the delivered signature may itself have claimed only a part of its wins: the copy
+                // is invalid material only if it really does not verify
+                let hex = it.sig.signature.to_json_hex().unwrap_or_default();
+                if Self::verify_under_key(w, &signers, &it.sig.party_id, &hex, &[], &message).is_ok() {
+                    continue;
+                }
+                it.valid = None;
+                it.what = format!("{}~bogus-index", item.what);
+                with_bogus.push(it);
+                added += 1;
+            }
+        }
+        if added > 0 {
+            let items: Vec<&Item> = with_bogus.iter().collect();
+            let res = aggregate(&items);
+            self.probe("clerk_probe_bogus_index_copies");
+            match (&genuine_ok, &res) {
+                (Ok(true), Ok(true)) | (Err(_), Err(_)) => {}
+                (Ok(true), Ok(false)) => self.report(step, "aggregate-does-not-verify", format!("adding copies that claim a lottery index they did not win makes the aggregate for {} unverifiable", entity.label())),
+                (Ok(true), Err(e)) => self.report(step, "more-material-breaks-aggregation", format!("adding copies that claim a lottery index they did not win makes the aggregation for {} fail: {e}", entity.label())),
+                (Err(_), Ok(v)) => {
+                    if full_union.len() as u64 >= w.sc.k && *v {
+                        // fine: quorum was there
+                    } else {
+                        self.report(step, "aggregation-without-quorum", format!("aggregation for {} fails on the genuine deliveries and succeeds (verifies: {v}) once copies claiming un-won indexes are added", entity.label()));
+                    }
+                }
+                _ => {}
+            }
         }
     }
 
